@@ -102,6 +102,16 @@ def real_specs(chk: common.Check) -> list[dict]:
     add(statement=outlive + "raise ValueError('main thread ends first')\n", policy=pol_next, trace_threads=True, expect='raise:ValueError')
     add(statement=outlive + 'x = 1\n', policy=pol_next, trace_threads=True, expect='plain')
     add(statement=outlive + 'x = 1\n', mode='continuous', trace_threads=True, expect='plain')
+    # a thread that reaches script code for the first time only after the script has ended (a timer): nothing can prompt it any more, it must
+    # not be traced and the run must end (F-G8, fixed)
+    late = "import threading\ndef f():\n    a = 1\n    print('late thread', a)\nthreading.Timer(0.3, f).start()\n"
+    for extra in ({'policy': pol_next}, {'mode': 'continuous'}):
+        add(statement=late + 'x = 1\n', trace_threads=True, expect='plain', timeout=25, probe=True, probe_nolog=True, probe_dump_after=17, **extra)
+    add(statement=late + "raise ValueError('main thread ends first')\n", policy=pol_next, trace_threads=True, expect='raise:ValueError', timeout=25,
+        probe=True, probe_nolog=True, probe_dump_after=17)
+    # an idle executor left behind whose worker ran script code (open finding F-G9: the teardown waits for the worker to END)
+    add(statement="from concurrent.futures import ThreadPoolExecutor\ndef f():\n    return 1\nex = ThreadPoolExecutor()\nr = ex.submit(f).result()\n",
+        policy=pol_next, trace_threads=True, expect='plain', timeout=25, probe=True, probe_nolog=True, probe_dump_after=17, executor_left=True)
     # a second run of the same object after the first one ended the hard way (whatever the dead child left behind must not matter)
     for kind in ('kill', 'terminate'):
         add(statement=SCRIPTS['single'], policy=pol_next, signal={'kind': kind, 'at_prompt': 2}, expect='hard', second_run=True, second_timeout=20)
@@ -149,6 +159,20 @@ def sigint_at_prompt_inside_asyncio_run(r: dict) -> bool:
     return False
 
 
+def idle_pool_worker_waited_for(r: dict) -> bool:
+    """F-G9's mechanism: the child's main thread waits in ThreadDoneCallback.close() for a registered thread that is an idle worker of a
+    concurrent.futures pool (it only ends at interpreter exit)"""
+    blocks = (r.get('child_stacks') or '').split('\nThread ') + (r.get('child_stacks') or '').split('\nCurrent thread ')[1:]
+    closing = idle = False
+    for block in blocks:
+        lines = [l.strip() for l in block.splitlines() if l.strip().startswith('File ')]
+        if any('done_callback/thread.py' in l and 'in close' in l for l in lines) and any('nextline/spawned/__init__.py' in l and 'in main' in l for l in lines):
+            closing = True
+        if len(lines) >= 2 and any('concurrent/futures/thread.py' in l and 'in _worker' in l for l in lines[:3]) and not any('<string>' in l for l in lines):
+            idle = True
+    return closing and idle
+
+
 def check_real(spec: dict, r: dict) -> list[str]:
     rec = r['rec']
     msgs = []
@@ -188,6 +212,97 @@ def check_real(spec: dict, r: dict) -> list[str]:
     return msgs
 
 
+def waiter_cancel_case(api: str, delay: int, ending: str) -> dict:
+    """Somebody who waits for the run gives up (its task is cancelled, e.g. by a time-out around the wait) while the script is still going:
+    that must not touch the run — it goes on, ends when the child does, and its result is the one reported; another waiter, not cancelled,
+    returns at that point."""
+    import asyncio
+    from .. import fakes, loop as ctl
+    from nextline.spawned import RunResult
+
+    async def main() -> dict:
+        sc = lifecycle.Scenario(0, 1, False, False)
+        await sc.setup()
+        nl = sc.nl
+        await sc.op('start')
+        entered = asyncio.Event()
+
+        async def waiter() -> str:
+            if api == 'run_session':
+                async with nl.run_session():
+                    entered.set()
+                return 'returned'
+            started = asyncio.Event()
+
+            async def flag() -> None:
+                await started.wait()
+                entered.set()
+            f = asyncio.ensure_future(flag())
+            try:
+                await nl.run_continue_and_wait(started)
+            finally:
+                f.cancel()
+            return 'returned'
+        w = asyncio.ensure_future(waiter())
+        await asyncio.wait_for(entered.wait(), timeout=30)
+        await lifecycle.settle()
+        other = asyncio.ensure_future(nl._imp.wait())          # a second waiter (what close() and run_session() use), never cancelled
+        for _ in range(delay):
+            await asyncio.sleep(0)
+        w.cancel()
+        await lifecycle.settle()
+        out: dict = {'api': api, 'delay': delay, 'ending': ending, 'waiter': 'cancelled' if w.cancelled() else ('done' if w.done() else 'pending'),
+                     'state_after_cancel': nl.state, 'live_after_cancel': len(sc.world.live()), 'other_after_cancel': other.done()}
+        for c in sc.world.live():
+            if ending == 'ret':
+                c.exit(RunResult(ret=5), exitcode=0)
+            else:
+                c.exit(RunResult(exc=ValueError('raised by the script')), exitcode=0)
+        await lifecycle.settle()
+        out.update(state_after_exit=nl.state, other_after_exit=other.done(), result=None, exception='')
+        if nl.state == 'finished':
+            try:
+                out['exception'] = nl.format_exception() or ''
+                out['result'] = nl.result() if not out['exception'] else None
+            except BaseException as e:  # noqa
+                out['result_error'] = f'{type(e).__name__}: {e}'
+        other.cancel()
+        for c in sc.world.live():
+            c.exit(RunResult(ret=None), exitcode=0)
+        await lifecycle.settle()
+        try:
+            await asyncio.wait_for(nl.close(), timeout=5)
+        except BaseException:  # noqa
+            pass
+        return out
+    fakes.install()
+    try:
+        return ctl.run(main, ctl.Fifo())
+    except (Exception, ctl.StepBudgetExceeded) as e:  # noqa
+        return {'api': api, 'delay': delay, 'ending': ending, 'error': f'{type(e).__name__}: {e}'}
+
+
+def waiter_cancel_oracle(r: dict) -> list[str]:
+    if 'error' in r:
+        return [f'scenario failed: {r["error"]}']
+    m = []
+    who = f"a task waiting in {r['api']}() was cancelled {r['delay']} loop step(s) after a second waiter had joined, the script still going"
+    if r['state_after_cancel'] != 'running' or r['live_after_cancel'] != 1:
+        m.append(f"{who}: the state is {r['state_after_cancel']!r} with {r['live_after_cancel']} live child process(es) (expected: still running, the child untouched)")
+    if r['other_after_cancel']:
+        m.append(f'{who}: another waiter returned although the run has not ended')
+    if r['state_after_exit'] != 'finished':
+        m.append(f"{who}; after the child exited the state is {r['state_after_exit']!r}")
+    else:
+        if not r['other_after_exit']:
+            m.append(f'{who}; the run finished but another waiter was not released')
+        if r['ending'] == 'ret' and (r['result'] != 5 or r['exception']):
+            m.append(f"{who}; the script then returned 5 but result()={r['result']!r}, format_exception()={r['exception'][-120:]!r}")
+        if r['ending'] == 'exc' and 'ValueError' not in r['exception']:
+            m.append(f"{who}; the script then raised ValueError but format_exception()={r['exception'][-120:]!r}")
+    return m
+
+
 def run(chk: common.Check) -> None:
     chk.cov.rule = ('(1) serial histories (as C01) in which runs end with a result, with none, after signals and with events still in the channel, on '
                     'the real Nextline + simulated child vs the Lean model (results, state and run_info publications, result()/format_exception()); '
@@ -213,6 +328,15 @@ def run(chk: common.Check) -> None:
         if m:
             oracle_fail.append(({'init': r['init'], 'ops': r['ops'], 'schedule': r['schedule'], 'implementation': r['impl']}, m, None))
     dis = _life.compare(rows, KINDS)
+    for api in ('run_session', 'run_continue_and_wait'):
+        for delay in (0, 1, 2, 5):
+            for ending in ('ret', 'exc'):
+                r = waiter_cancel_case(api, delay, ending)
+                chk.cov.case(('waiter-cancelled', api, delay, ending))
+                chk.cov.count('kinds', 'a-waiter-is-cancelled-while-the-script-is-going')
+                m = waiter_cancel_oracle(r)
+                if m:
+                    oracle_fail.append(({'waiter_cancel': r}, m, None))
     specs = real_specs(chk)
     for spec, r in zip(specs, common.real_runs(specs, jobs=10, hard_timeout=100)):
         chk.cov.case(('real', spec['expect'], repr(spec.get('signal')), spec['statement'][:40]))
@@ -226,6 +350,8 @@ def run(chk: common.Check) -> None:
                 sig = 'interrupt_inside_queue_put'
             if 'never finished' in m[0] and (spec.get('signal') or {}).get('kind') == 'interrupt' and sigint_at_prompt_inside_asyncio_run(r):
                 sig = 'sigint_at_prompt_inside_asyncio_run'
+            if 'never finished' in m[0] and spec.get('executor_left') and idle_pool_worker_waited_for(r):
+                sig = 'idle_pool_worker_waited_for'
             oracle_fail.append(({'real_run': {k: v for k, v in spec.items()}, 'stacks': (r['rec'] or {}).get('stacks_at_timeout'), 'child_stacks': (r.get('child_stacks') or '')[-4000:],
                                  'states': (r['rec'] or {}).get('states')}, m, sig))
     _life.finish(chk, 'C02', oracle_fail, dis, 'results, state and run_info publications, result()/format_exception()')
